@@ -12,7 +12,7 @@ CFG_OBS = os.path.join(SPEC, "mc", "SqlObs.cfg")
 ENVELOPE = dict(null_lit=False, inl_null=False, jts=("inner", "inner", "left", "cross"), on=("eq",),
                 mod="const", subq=("exists", "in", "scalar"), like=True, case=True, touch_all=True,
                 const_pred=False, order_const=False, agg_const=False, distinct_order=False, countd=True,
-                not_in_sub=False, sub_top_only=True, sel_needs_col=True, derived=0.2)
+                not_in_sub=False, not_exists=True, sub_top_only=True, sel_needs_col=True, derived=0.2)
 ENVELOPE_INNER_ON = dict(ENVELOPE, jts=("inner",), on=("eq", "eq+", "any"))
 
 
